@@ -22,4 +22,6 @@ run_one() {
 }
 export -f run_one
 printf "%s\n" "${patches[@]}" | xargs --process-slot-var=VERIF_SLOT -P ${NEUTRAL_JOBS:-4} -I{} bash -c 'run_one {}' | tee /tmp/neutral.$$.out
+# drop the per-worker build slots (about 2 GB each)
+for d in /verif/.work/target/*-w${VERIF_SLOT_PREFIX}[0-9]*; do [ -d "$d" ] && rm -rf "$d"; done
 ! grep -q "FALSE ALARM\|APPLY-FAILED" /tmp/neutral.$$.out; rc=$?; rm -f /tmp/neutral.$$.out; exit $rc
